@@ -91,7 +91,9 @@ Range(a, b, step) == [i \in 1..RangeLen(a, b, step) |-> a + (i - 1) * step]
 Interval(a, b) == [i \in 1..(IF b >= a THEN b - a + 1 ELSE 0) |-> a + i - 1]
 
 \* chunks(s, n), n >= 1: consecutive pieces of n elements, the last one
-\* possibly shorter; no piece for an empty list
+\* possibly shorter but never empty; hence no piece for an empty list (the
+\* textbook definition: Haskell chunksOf, Kotlin chunked, Ruby each_slice,
+\* Scala grouped all give the empty result for the empty input)
 Chunks(s, n) ==
   [j \in 1..((Len(s) + n - 1) \div n) |-> SubSeq(s, (j - 1) * n + 1, MinI(j * n, Len(s)))]
 
